@@ -131,6 +131,12 @@ class OneofSpace(Space):
                         and not (a[1] == 1 and b[1] == 1):
                     continue  # quick: members of DIFFERENT groups interleave with non-default values only
                 ops.append(["parse", [list(a), list(b)]])
+        # one member before AND after another member of its group (A, B, A): the last occurrence wins
+        for a in pm:
+            for b in pm:
+                if a[0] != b[0] and self.m.field(a[0]).group == self.m.field(b[0]).group and a[1] == 1 and b[1] == 1 \
+                        and "sub" not in (a[0], b[0]):
+                    ops.append(["parse", [list(a), list(b), list(a)]])
         dicts = [[["i", 1]], [["s", 0]], [["e", 1]], [["sub", 1]], [["b", 0]],
                  [["i", 1], ["b", 1]], [["i", 1], ["s", 1]], [["s", 1], ["i", 0]], []]
         if self.tier == "optstyle":
